@@ -277,7 +277,7 @@ def band_info(f, e, lo, hi):
     return idx, s, m
 
 
-def compare_bulk(ctx, tag, f, e_model, mb, ib, lo, hi, rep, fail, a1=None, b1=None, skip_dirs=False):
+def compare_bulk(ctx, tag, f, e_model, mb, ib, lo, hi, rep, fail, a1=None, b1=None, skip_dirs=False, skip_means=False):
     """mb: model bulk dict (floats), ib: impl bulk dict (floats). `fail(desc)` reports.
     Returns True when everything agreed."""
     ok = True
@@ -301,7 +301,12 @@ def compare_bulk(ctx, tag, f, e_model, mb, ib, lo, hi, rep, fail, a1=None, b1=No
     # peak
     pi_i, pi_m = ib["pidx"], mb["pidx"]
     peak_ok = True
-    if isnan(pi_m) or isnan(pi_i):
+    if not any(fin(e_model[i]) and e_model[i] > 0 for i in idx):
+        # no positive energy inside the band: the peak is not defined by the property (the code answers index 0 or the
+        # first zero bin); counted, not compared
+        ctx.tally("skipped:peak-of-a-band-without-energy")
+        peak_ok = False
+    elif isnan(pi_m) or isnan(pi_i):
         if not (isnan(pi_m) and isnan(pi_i)):
             bad("peak_index impl %r model %r" % (pi_i, pi_m))
         peak_ok = False
@@ -316,7 +321,7 @@ def compare_bulk(ctx, tag, f, e_model, mb, ib, lo, hi, rep, fail, a1=None, b1=No
         if not C.close(ib["pfreq"], mb["pfreq"], 1e-12, 0.0):
             bad("peak_frequency impl %r model %r" % (ib["pfreq"], mb["pfreq"]))
     # band means of the moments
-    for k in ("ma1", "mb1", "ma2", "mb2"):
+    for k in (() if skip_means else ("ma1", "mb1", "ma2", "mb2")):
         if not same_missing(ib[k], mb[k]):
             bad("%s impl %r model %r" % (k, ib[k], mb[k]))
         elif fin(mb[k]) and abs(ib[k] - mb[k]) > 1e-9 * (1.0 + abs(mb[k])):
@@ -338,7 +343,8 @@ def compare_bulk(ctx, tag, f, e_model, mb, ib, lo, hi, rep, fail, a1=None, b1=No
             ctx.tally("skipped:" + note)
         if not okq:
             bad("%s impl %r model %r" % (ks, ib[ks], mb[ks]))
-    dirs("mdir", "mspr", mb["ma1"], mb["mb1"])
+    if not skip_means:
+        dirs("mdir", "mspr", mb["ma1"], mb["mb1"])
     if peak_ok and a1 is not None:
         p = int(pi_m)
         dirs("pdir", "pspr", a1[p], b1[p])
@@ -391,7 +397,7 @@ def build_2d_case(rng, uniform_only=False, variants=None, maxpts=3, nbands=3, nf
     nf = 1 if r < 0.03 else (2 if r < 0.08 else rng.randint(3, nfmax))
     fk, f = gen_freq(rng, nf)
     layout = rng.choice(["none", "none", "time", "time", "time_lat"])
-    npts = 1 if layout == "none" else (rng.randint(1, maxpts) if layout == "time" else rng.choice([2, 4][:max(1, maxpts // 2)]))
+    npts = 1 if layout == "none" else (rng.randint(1, maxpts) if layout == "time" else rng.choice([2, 4, 6, 8][:max(1, maxpts // 2)]))
     pts = []
     for _ in range(npts):
         dk, E, flags = gen_density(rng, f, g["th"])
@@ -420,8 +426,8 @@ def replay_of(b, pt=None):
 # ------------------------------------------------------------------------------------------
 def run(ctx):
     rng = ctx.rng
-    ncase = ctx.n(110, 2600)
-    builds = [build_2d_case(rng, nbands=3, maxpts=3 if ctx.quick() else 4, nfmax=20 if ctx.quick() else 30)
+    ncase = ctx.n(60, 1300)
+    builds = [build_2d_case(rng, nbands=3, maxpts=6 if ctx.quick() else 8, nfmax=20 if ctx.quick() else 30)
               for _ in range(ncase)]
     cases = [b["case"] for b in builds]
     # auxiliary: wrapped_difference on its own, numba integral
@@ -442,7 +448,10 @@ def run(ctx):
         aux.append(("nisd", {"op": "nisd", "data": [hexrow(r) for r in data], "fstep": hexrow(fs), "dstep": hexrow(dsx)},
                     data, fs, dsx))
     payload = {"cases": cases + [a[1] for a in aux]}
+    import time as _t
+    t0 = _t.time()
     impl = ctx.impl("C02.py", payload)["results"]
+    t1 = _t.time()
 
     mlines = []
     for b in builds:
@@ -458,6 +467,7 @@ def run(ctx):
             mlines.append("nisd %d %d %s %s %s" % (len(fs), len(dsx), " ".join(C.fx(v) for r in data for v in r),
                                                    " ".join(C.fx(v) for v in fs), " ".join(C.fx(v) for v in dsx)))
     mod = ctx.model(mlines)
+    ctx.extra["timing_s"] = {"implementation": round(t1 - t0, 1), "model": round(_t.time() - t1, 1)}
     mi = 0
     for ci, b in enumerate(builds):
         res = impl[ci]
@@ -490,7 +500,9 @@ def run(ctx):
                     continue
                 mv = C.unfx(mod[mi][0])
                 mi += 1
-                if not C.close(gv, mv, 1e-12, 1e-12 * per):
+                if abs(abs(gv - mv) - per) <= 1e-9 * per and min(abs(mv - dd), abs(mv - (dd - per))) <= 1e-9 * per:
+                    ctx.tally("skipped:wrapped-difference-exactly-on-the-discontinuity")
+                elif not C.close(gv, mv, 1e-12, 1e-12 * per):
                     ctx.disagree("wrapped_difference(%r, period=%r, discont=%r): impl %r model %r" % (d, per, disc, gv, mv),
                                  rep, is_property_failure=True)
                 # oracle: congruent to delta modulo the period, inside (discont - period, discont]
@@ -692,6 +704,73 @@ def check_2d_case(ctx, b, res, mpts, do_c03=False):
                         "step[:3]": st_i[:3], "e[:3] impl": iv["e"][:3], "e[:3] model": m["e"][:3],
                         "a1[:3] impl": iv["a1"][:3], "a1[:3] model": m["a1"][:3]})
     return out
+
+
+# ------------------------------------------------------------------------------------------
+# --replay FILE : re-evaluate one recorded input (single point, layout ())
+# ------------------------------------------------------------------------------------------
+def unwrap_grid(th):
+    phi = [th[0]]
+    for j in range(1, len(th)):
+        phi.append(phi[-1] + ((th[j] - th[j - 1]) % 360.0))
+    return phi
+
+
+def build_from_replay(inp, variants=None):
+    f = [float(v) for v in inp["frequency"]]
+    th = [float(v) for v in inp["direction"]]
+    if "variance_density" in inp:
+        pts = [inp["variance_density"]]
+    else:
+        pts = inp["variance_density(points)"]
+    pts = [("replay", [[NAN if v is None else float(v) for v in r] for r in E], []) for E in pts]
+    bands = [(0.0, INF, "default")]
+    if inp.get("band"):
+        lo, hi = inp["band"]
+        bands.append((float(lo), float(hi), "replay"))
+    n = len(th)
+    dl = 360.0 / n
+    phi = unwrap_grid(th)
+    uniform = all(abs((phi[j + 1] - phi[j]) - dl) < 1e-9 for j in range(n - 1))
+    g = {"kind": inp.get("grid_kind", "replay"), "th": th, "n": n, "uniform": uniform, "dl": dl if uniform else None,
+         "start": th[0], "phi": phi}
+    layout = "none" if len(pts) == 1 else "time"
+    case = {"op": "spec2d", "f": hexrow(f), "th": hexrow(th), "E": [[hexrow(r_) for r_ in E] for (_, E, _) in pts],
+            "layout": layout, "bands": [[C.fx(b[0]), C.fx(b[1])] for b in bands], "variants": variants or [], "extra": True}
+    return {"grid": g, "f": f, "fkind": "replay", "layout": layout, "pts": pts, "bands": bands, "case": case}
+
+
+def replay(ctx, obj):
+    inp = obj.get("input", obj)
+    op = inp.get("op")
+    if op == "FrequencyDirectionSpectrum":
+        b = build_from_replay(inp)
+        res = ctx.impl("C02.py", {"cases": [b["case"]]})["results"][0]
+        mod = ctx.model([model_line_2d(b["f"], b["grid"]["th"], E, b["bands"]) for (_, E, _) in b["pts"]])
+        check_2d_case(ctx, b, res, [parse_2d(t, len(b["bands"])) for t in mod])
+    elif op == "wrapped_difference":
+        ds = [NAN if v is None else float(v) for v in inp["delta"]]
+        per, disc = inp["period"], inp["discont"]
+        res = ctx.impl("C02.py", {"cases": [{"op": "wrap", "delta": hexrow(ds), "period": C.fx(per),
+                                             "discont": None if disc is None else C.fx(disc)}]})["results"][0]
+        dd = per / 2 if disc is None else disc
+        got = unh(res["value"]) if not err_of(res) else [NAN] * len(ds)
+        for d, gv in zip(ds, got):
+            ctx.count(["replay-wrap", d])
+            if isnan(d):
+                continue
+            kk = (gv - d) / per
+            if isnan(gv) or abs(kk - round(kk)) > 1e-9 or not (dd - per - 1e-9 * per <= gv <= dd + 1e-9 * per):
+                ctx.oracle_fail("wrapped_difference(%r, period=%r, discont=%r) = %r is not the wrapped value" % (d, per, disc, gv), inp)
+    elif op == "numba_integrate_spectral_data":
+        data, fs, dsx = inp["data"], inp["frequency_step"], inp["direction_step"]
+        res = ctx.impl("C02.py", {"cases": [{"op": "nisd", "data": [hexrow(r) for r in data], "fstep": hexrow(fs), "dstep": hexrow(dsx)}]})["results"][0]
+        ref = math.fsum(v * a_ * b_ for r, a_ in zip(data, fs) for v, b_ in zip(r, dsx))
+        ctx.count(["replay-nisd"])
+        if err_of(res) or not C.close(C.unfx(res["value"]), ref, 1e-9, 0.0):
+            ctx.oracle_fail("numba_integrate_spectral_data is not the double sum %r: %s" % (ref, res), inp)
+    else:
+        print("replay: unknown input kind %r" % op)
 
 
 READY = False
